@@ -11,8 +11,8 @@ from extract import ExtractionError
 
 POSMAP = "prqlc/prqlc/src/sql/pq/positional_mapping.rs"
 
-LABELS = ["PM1", "PM2", "PM3", "PM4"]
-FUNCTIONS = ["select_arm", "aggregate_arm", "apply_active_mapping"]
+LABELS = ["PM1", "PM2", "PM3", "PM4", "PM5"]
+FUNCTIONS = ["select_arm", "aggregate_arm", "apply_active_mapping", "activate_mapping"]
 RLIMIT = 60
 
 ASSUMED = [
@@ -20,7 +20,7 @@ ASSUMED = [
     {"what": "the local closure add_columns(columns, cids) is external with the contract its text has: it appends the ids of cids that the requirements mark as selected (all of "
              "them when there are no requirements): selected(), uninterpreted; Vec::clear empties; `mapping.iter().any(|idx| *idx >= output.len())` and "
              "`mapping.iter().map(|idx| output[*idx]).collect()` are any_out_of_range() / pick()",
-     "keys": ["fn add_columns", "spec fn selected", "fn clear_cids", "fn any_out_of_range", "fn pick", "struct PositionalMapper"]},
+     "keys": ["fn add_columns", "spec fn selected", "fn clear_cids", "fn any_out_of_range", "fn pick", "struct PositionalMapper", "struct MapShim", "fn view", "fn remove"]},
 ]
 TRUSTED = [
     "oracle (C01 / C05 / C07): UNION / EXCEPT / INTERSECT pair the i-th column of the top with the i-th column of the bottom, so the list of top columns recorded for a set "
@@ -48,7 +48,17 @@ pub fn pick(mapping: &Vec<usize>, output: &Vec<CId>) -> (r: Vec<CId>)
     requires forall|i: int| 0 <= i < mapping@.len() ==> #[trigger] mapping@[i] < output@.len(),
     ensures r@.len() == mapping@.len(), forall|i: int| 0 <= i < mapping@.len() ==> #[trigger] r@[i] == output@[mapping@[i] as int],
 { unimplemented!() }
-pub struct PositionalMapper { pub active_positional_mapping: Option<Vec<usize>> }
+pub type RIId = usize;
+#[verifier::external_body] pub struct MapShim { _p: u8 }
+impl MapShim {
+    pub uninterp spec fn view(&self) -> Map<RIId, Vec<usize>>;
+    #[verifier::external_body]
+    pub fn remove(&mut self, k: &RIId) -> (r: Option<Vec<usize>>)
+        ensures final(self).view() == old(self).view().remove(*k),
+                match r { Some(v) => old(self).view().dom().contains(*k) && v == old(self).view()[*k], None => !old(self).view().dom().contains(*k) },
+    { unimplemented!() }
+}
+pub struct PositionalMapper { pub relation_positional_mapping: MapShim, pub active_positional_mapping: Option<Vec<usize>> }
 """
 
 
@@ -84,7 +94,14 @@ def build(X):
                 ==> (r@.len() == old(self).active_positional_mapping->0@.len()
                      && forall|i: int| 0 <= i < r@.len() ==> #[trigger] r@[i] == output@[old(self).active_positional_mapping->0@[i] as int]), // @PM4
     """)
-    return PRELUDE + sa.text + "\n" + aa.text + "\nimpl PositionalMapper {\n" + am.text + "\n}\n} // verus!\nfn main() {}\n"
+    ac = X.fn(POSMAP, "activate_mapping").pub_all().drop_logging()
+    ac.contract("""
+        ensures
+            // C05 / C07: the mapping that is applied to a relation instance is the one computed for THAT instance - none if none was computed (a mapping left over from
+            // the previous instance would cut or reorder the columns of this one)
+            final(self).active_positional_mapping == (if old(self).relation_positional_mapping.view().dom().contains(*riid) { Some(old(self).relation_positional_mapping.view()[*riid]) } else { None::<Vec<usize>> }), // @PM5
+    """)
+    return PRELUDE + sa.text + "\n" + aa.text + "\nimpl PositionalMapper {\n" + am.text + "\n" + ac.text + "\n}\n} // verus!\nfn main() {}\n"
 
 
 # ----------------------------------------------------------------------------- replay on the real compiler
@@ -108,7 +125,33 @@ def _try(src, exp):
             "replay_kind": "rows", "sql": sql}
 
 
+SETUP5 = ("create table a(id integer, x integer, y integer, z integer); insert into a values (1,1,1,1),(2,2,2,2),(3,3,3,3);"
+          "create table b(id integer, x integer, w integer); insert into b values (1,10,100),(9,90,900);")
+# an appended relation (which gets a positional mapping) followed by the compilation of a WIDER relation instance, which has none
+CASES5 = [
+    ("from a\nselect {id, x, y}\ntake 5\nappend (from b | select {id, x, w} | take 5)\nselect {s = x + y, id}\njoin side:left (from a | select {id, x, y, z} | take 3) (==id)\nsort {s, id}\n",
+     [(2, 1, 1, 1, 1, 1), (4, 2, 2, 2, 2, 2), (6, 3, 3, 3, 3, 3), (110, 1, 1, 1, 1, 1), (990, 9, None, None, None, None)]),
+]
+
+
+def _try5(src, exp):
+    import replaylib
+    ok, sql = replaylib.compile_prql(src, "sql.sqlite")
+    if not ok:
+        return {"input": src, "expected": [list(r) for r in exp], "observed": sql[:300], "failing": sql.startswith("PANIC"), "replay_kind": "rows5"}
+    ok2, rows = replaylib.sqlite_rows(SETUP5, sql)
+    rows = [tuple(r) for r in rows] if ok2 else rows
+    return {"input": src, "expected": [list(r) for r in exp], "observed": [list(r) for r in rows] if ok2 else "sqlite error: %s\n%s" % (rows, sql[:400]), "failing": (not ok2) or rows != exp,
+            "replay_kind": "rows5", "sql": sql}
+
+
 def replay(failure):
+    if failure.get("obligation", "").endswith(("PM5", "PM3", "PM4")):
+        for src, exp in CASES5:
+            r = _try5(src, exp)
+            if r["failing"]:
+                return r
+        return {"failing": False}
     for src, exp in CASES:
         r = _try(src, exp)
         if r["failing"]:
@@ -117,4 +160,6 @@ def replay(failure):
 
 
 def rerun(doc):
+    if doc.get("replay_kind") == "rows5":
+        return _try5(doc["input"], [tuple(r) for r in doc["expected"]])
     return _try(doc["input"], [tuple(r) for r in doc["expected"]])
